@@ -41,8 +41,13 @@ def main() -> None:
             return [p for p in P.descendants(server_pid) if P.alive(p)]
     else:
         det = P.Detached(list(case['managers']), env=env)
-        comp = det.connect(120)
         roots = [p.pid for p in det.procs]
+        emit(ev='spawned', roots=roots)
+        try:
+            comp = det.connect(120)
+        except BaseException:
+            det.kill_all()
+            raise
         if case.get('victim_role') == 'manager':
             def victims() -> list[int]:
                 return [p.pid for p in det.manager_procs if P.alive(p.pid)]
